@@ -239,10 +239,10 @@ pub fn judge(calls: &[Call], docs: &[Vec<DocSpec>], short_seed: Option<u64>, acc
                 break;
             }
             if any_attempt {
-                // an earlier document was refused; whether this one is then accepted is not fixed by the property
-                free = true;
-                // we must still learn whether it was accepted: decided from the bytes below
-                any_attempt = true;
+                // an earlier document was offered and refused: this one is "a second document or second input"
+                // all the same, and must be refused too
+                expect_err = Some("an earlier document was offered to this output (and refused); a second document / input must be refused".into());
+                acc.count("later_document_after_a_refused_one");
                 break;
             }
             any_attempt = true;
@@ -436,7 +436,7 @@ pub fn run(ctx: &Ctx) -> i32 {
     acc.merge(cli);
     let rule = format!("{} histories of 1-3 translate calls on one Translator(to=TOML), 0-3 documents per call, documents: representable tables, every non-table root type, a null / oversized integer / non-string key / binary planted at a random path of a generated tree, keys from the hostile string pools (all quoting styles), arrays of tables; sources JSON/MessagePack/YAML/TOML, slice and reader, explicit and detected, every third history through a short-write writer (1-7 bytes per call), every fourth once more to a writer that fails ONE write call after k bytes with a transient error kind (WouldBlock, Interrupted, TimedOut, Other, WriteZero) and then accepts again; plus {} command-line invocations `xt -t toml` over 1-3 inputs (files and stdin) judged by the CLI reference model and the TOML reader; distinct non-trivial = distinct input sequences", n, n_cli);
     ev::finish(
-        Finish { ctx, level: "exploration", rule, assumptions: vec!["after a refused first document the fate of later documents is not fixed by the property (either outcome accepted, byte invariant still enforced)".into(), "non-string keys, binary and non-finite floats may be accepted or refused".into()], extra: serde_json::Map::new(), exhaustive: false, min_distinct: 1000, must_reach: vec![("cli_second_input_refused".into(), 20), ("TOML_SECOND_USE_REFUSED".into(), 100), ("TOML_NON_TABLE_ROOT_REFUSED".into(), 100), ("histories_one_document_written".into(), 100), ("doc_kind_planted_null".into(), 100), ("doc_kind_planted_oversized_int".into(), 100), ("histories_with_a_transient_write_error".into(), 1000), ("transient_write_error_left_a_prefix".into(), 100)] },
+        Finish { ctx, level: "exploration", rule, assumptions: vec!["after a first document of a kind that may be accepted or refused (non-string keys, non-finite floats, float32) the rest of the history is judged by the byte invariant only".into(), "non-string keys, binary and non-finite floats may be accepted or refused".into()], extra: serde_json::Map::new(), exhaustive: false, min_distinct: 1000, must_reach: vec![("cli_second_input_refused".into(), 20), ("TOML_SECOND_USE_REFUSED".into(), 100), ("TOML_NON_TABLE_ROOT_REFUSED".into(), 100), ("histories_one_document_written".into(), 100), ("doc_kind_planted_null".into(), 100), ("doc_kind_planted_oversized_int".into(), 100), ("histories_with_a_transient_write_error".into(), 1000), ("transient_write_error_left_a_prefix".into(), 100)] },
         acc,
     )
 }
